@@ -1,9 +1,10 @@
 ------------------------------- MODULE Params -------------------------------
 (***************************************************************************)
 (* C20: parameter binding.  An item (fact, rule, check, policy) is an AST  *)
-(* with ONE hole {p} at a given position; binding puts a value exactly at  *)
-(* the hole, whatever the value contains, and never changes the shape of   *)
-(* the item.  The state machine:                                           *)
+(* with a hole {p} at a given position (and, for the pair positions, a     *)
+(* second independent hole {q}); binding puts a value exactly at the hole, *)
+(* whatever the value contains, and never changes the shape of the item.   *)
+(* The state machine:                                                      *)
 (*     Parse --Set(strict|lenient, name)--> Bound|Unbound --Add--> outcome *)
 (* Outcomes:  "same-as-literal"  the item equals the item written with the *)
 (*                               value as a literal at the hole            *)
@@ -28,26 +29,92 @@ TermPositions == {"fact_term", "fact_in_array", "fact_in_set", "fact_map_value",
 ScopePositions == {"rule_scope", "check_scope", "policy_scope", "check_scope_two_alternatives", "policy_scope_two_alternatives"}
 Positions == TermPositions \cup ScopePositions
 
+\* items with TWO holes {p} and {q} (the second value is c.v2): the holes are bound independently,
+\* wherever they stand relative to each other (map key and its value, head and expression, term and scope,
+\* nested closures)
+PairTermPositions == {"fact_map_key_value", "fact_map_key_nested_value", "fact_map_two_entries", "fact_two_terms",
+                      "rule_map_key_value", "rule_head_and_expr", "check_map_key_value", "check_expr_map_key_value",
+                      "policy_map_key_value", "policy_expr_map_key_value", "check_nested_closures"}
+PairScopePositions == {"check_term_and_scope", "policy_term_and_scope", "rule_term_and_scope"}
+PairPositions == PairTermPositions \cup PairScopePositions
+KeyFirst(pos) == pos \in {"fact_map_key_value", "fact_map_key_nested_value", "fact_map_two_entries", "rule_map_key_value",
+                          "check_map_key_value", "check_expr_map_key_value", "policy_map_key_value", "policy_expr_map_key_value"}
+
+\* the source of each item: the single definition used by the spec's exports, the run-time replay and the macro path
+Template(pos) ==
+    CASE pos = "fact_term" -> "f({p})"
+      [] pos = "fact_in_array" -> "f([1, {p}])"
+      [] pos = "fact_in_set" -> "f({ {p} })"
+      [] pos = "fact_map_value" -> "f({\"k\": {p}})"
+      [] pos = "fact_map_key" -> "f({ {p}: 1 })"
+      [] pos = "rule_head_term" -> "r({p}) <- f($x)"
+      [] pos = "rule_body_term" -> "r($x) <- f($x), g({p})"
+      [] pos = "rule_body_in_array" -> "r($x) <- f($x), g([{p}])"
+      [] pos = "rule_expr_value" -> "r($x) <- f($x), $x == {p}"
+      [] pos = "rule_expr_in_array" -> "r($x) <- f($x), [{p}].contains($x)"
+      [] pos = "rule_closure_body" -> "r($x) <- f($x), [1].any($e -> $e == {p})"
+      [] pos = "rule_closure_in_array" -> "r($x) <- f($x), [1].any($e -> [{p}].contains($e))"
+      [] pos = "rule_scope" -> "r($x) <- f($x) trusting {p}"
+      [] pos = "check_body_term" -> "check if g({p})"
+      [] pos = "check_body_in_array" -> "check if g([{p}])"
+      [] pos = "check_expr_value" -> "check if f($x), $x == {p}"
+      [] pos = "check_expr_in_array" -> "check if f($x), [{p}].contains($x)"
+      [] pos = "check_scope" -> "check if f($x) trusting {p}"
+      [] pos = "policy_body_term" -> "allow if g({p})"
+      [] pos = "policy_expr_value" -> "allow if f($x), $x == {p}"
+      [] pos = "policy_expr_in_set" -> "allow if f($x), { {p} }.contains($x)"
+      [] pos = "policy_scope" -> "allow if f($x) trusting {p}"
+      [] pos = "check_two_alternatives" -> "check if g({p}) or h($x), $x == {p}"
+      [] pos = "policy_two_alternatives" -> "allow if g({p}) or h($x), $x == {p}"
+      [] pos = "rule_head_and_body" -> "r({p}) <- f($x), g({p}), $x != {p}"
+      [] pos = "fact_twice" -> "f({p}, [{p}])"
+      [] pos = "check_scope_two_alternatives" -> "check if f($x) trusting {p} or g($x) trusting {p}"
+      [] pos = "policy_scope_two_alternatives" -> "allow if f($x) trusting {p} or g($x) trusting {p}"
+      \* two holes
+      [] pos = "fact_map_key_value" -> "f({ {p}: {q} })"
+      [] pos = "fact_map_key_nested_value" -> "f({ {p}: [{q}] })"
+      [] pos = "fact_map_two_entries" -> "f({ {p}: 1, \"z\": {q} })"
+      [] pos = "fact_two_terms" -> "f({p}, {q})"
+      [] pos = "rule_map_key_value" -> "r($x) <- f($x), g({ {p}: {q} })"
+      [] pos = "rule_head_and_expr" -> "r({p}) <- f($x), $x == {q}"
+      [] pos = "check_map_key_value" -> "check if g({ {p}: {q} })"
+      [] pos = "check_expr_map_key_value" -> "check if f($x), $x == { {p}: {q} }"
+      [] pos = "policy_map_key_value" -> "allow if g({ {p}: {q} })"
+      [] pos = "policy_expr_map_key_value" -> "allow if f($x), $x == { {p}: [{q}] }"
+      [] pos = "check_nested_closures" -> "check if [1].any($e -> [2].any($g -> $e == {p} && $g == {q}))"
+      [] pos = "check_term_and_scope" -> "check if g({p}) trusting {q}"
+      [] pos = "policy_term_and_scope" -> "allow if g({p}) trusting {q}"
+      [] pos = "rule_term_and_scope" -> "r({p}) <- f($x) trusting {q}"
+
 TermValues == {"int", "string", "string_with_datalog", "string_with_quote_newline", "bool", "date", "bytes", "set", "array", "map", "null"}
 ScopeValues == {"key_ed25519", "key_secp256r1"}
 
 \* where the item lives
 Holder(pos) == IF pos \in {"policy_body_term", "policy_expr_value", "policy_expr_in_set", "policy_scope",
-                             "policy_two_alternatives", "policy_scope_two_alternatives"} THEN "authorizer" ELSE "block"
+                             "policy_two_alternatives", "policy_scope_two_alternatives",
+                             "policy_map_key_value", "policy_expr_map_key_value", "policy_term_and_scope"} THEN "authorizer" ELSE "block"
 
 \* values that may stand at a position
 Fits(pos, v) ==
     CASE pos \in ScopePositions -> v \in ScopeValues
-      [] pos = "fact_map_key"   -> v \in {"int", "string", "string_with_datalog", "string_with_quote_newline"}
+      [] pos = "fact_map_key" \/ (pos \in PairPositions /\ KeyFirst(pos))
+                                -> v \in {"int", "string", "string_with_datalog", "string_with_quote_newline"}
       [] OTHER -> v \in TermValues
 
 VARIABLES c
 vars == <<c>>
 
-Case(pos, v, bound, strict, known) == [pos |-> pos, v |-> v, bound |-> bound, strict |-> strict, known |-> known]
+\* v2 = "-" : the item has one hole only
+Case(pos, v, bound, strict, known) == [pos |-> pos, v |-> v, bound |-> bound, strict |-> strict, known |-> known, v2 |-> "-", bound2 |-> TRUE]
+Pair(pos, v, v2, b, b2, s) == [pos |-> pos, v |-> v, bound |-> b, strict |-> s, known |-> TRUE, v2 |-> v2, bound2 |-> b2]
+
+PairFirstValues == {"int", "string", "string_with_datalog", "array"}
+PairSecondValues == {"int", "string_with_datalog", "array", "map", "null"}
 
 Init ==
-    c \in {Case(pos, v, b, s, k) : pos \in Positions, v \in TermValues \cup ScopeValues, b \in BOOLEAN, s \in BOOLEAN, k \in BOOLEAN}
+    \/ c \in {Case(pos, v, b, s, k) : pos \in Positions, v \in TermValues \cup ScopeValues, b \in BOOLEAN, s \in BOOLEAN, k \in BOOLEAN}
+    \/ c \in {Pair(pos, v, v2, b, b2, s) : pos \in PairPositions, v \in PairFirstValues, v2 \in PairSecondValues \cup ScopeValues,
+                                            b \in BOOLEAN, b2 \in BOOLEAN, s \in BOOLEAN}
 Next == UNCHANGED vars
 Spec == Init /\ [][Next]_vars
 
@@ -55,12 +122,13 @@ Spec == Init /\ [][Next]_vars
 \* (what a SET may contain besides scalars is not fixed by the property: collections inside sets are left out)
 InUniverse ==
     /\ (c.pos \in ScopePositions) = (c.v \in ScopeValues)
+    /\ (c.pos \in PairScopePositions) = (c.v2 \in ScopeValues)
     /\ (c.pos \in {"fact_in_set", "policy_expr_in_set"}) => c.v \notin {"set", "array", "map", "null"}
 
 \* the setter is called with the hole's name (known) or with another name (not known);
 \* the hole ends up bound only if the right name was used and `bound` asks for a call
 SetterOutcome == IF c.known THEN "ok" ELSE IF c.strict THEN "error" ELSE "ok"
-HoleBound == c.bound /\ c.known
+HoleBound == c.bound /\ c.known /\ c.bound2
 
 Outcome ==
     IF c.bound /\ ~c.known /\ c.strict THEN "set-error"
@@ -75,5 +143,5 @@ UnboundNeverAdded == (~HoleBound) => Outcome \in {"refused", "set-error"}
 
 Export ==
     (ExportOn /\ InUniverse) =>
-        PrintT(<<"PARAM", ToJson([c |-> c, holder |-> Holder(c.pos), outcome |-> Outcome])>>)
+        PrintT(<<"PARAM", ToJson([c |-> c, holder |-> Holder(c.pos), src |-> Template(c.pos), outcome |-> Outcome])>>)
 =============================================================================
